@@ -39,6 +39,15 @@ for _p in ("C01", "C02"):
                           "and lost, values equal range totals, normalisation and sat lookup preserve meaning. ") + CLAIMS[_p]["text"]
     CLAIMS[_p]["technique"] = ("TLC model checking of the range ledger against the per-sat BIP assignment (spec/SatLedger.tla) + "
                                "TLA+ trace validation with TLC (spec/LedgerTrace.tla) of traces recorded from the real indexer")
+CLAIMS["C08"]["level"] = "model_checking"
+CLAIMS["C08"]["text"] = ("TLC explores spec/RuneModel.tla: every sequence of up to 2 (thorough: 3) transactions from a small alphabet (any runic "
+                         "inputs; one or two outputs, possibly OP_RETURN; runestone, cenotaph or none; up to two edicts with amounts 0/1/5 to any "
+                         "output incl. all outputs; pointers; etchings with/without premine and terms; mints of existing and missing runes) applied "
+                         "with the rules of spec/RuneRules.tla -- the reference LedgerTrace folds: for every rune, balances + burned = premine + "
+                         "mints x amount; no zero balances; mints never exceed the cap and only happen while the terms are open; burned never "
+                         "decreases. ") + CLAIMS["C08"]["text"]
+CLAIMS["C08"]["technique"] = ("TLC model checking of conservation for the reference rune rules (spec/RuneModel.tla over spec/RuneRules.tla) + "
+                              "TLA+ trace validation with TLC (spec/LedgerTrace.tla) of traces recorded from the real indexer")
 CLAIMS["C06"]["level"] = "model_checking"
 CLAIMS["C06"]["text"] = ("TLC checks spec/InscrFlotsam.tla for every transaction within small constants (up to 2 inputs with up to 2 inscriptions "
                          "already on each, up to 2 new envelopes with any pointer, up to 2 outputs): the updater's per-transaction algorithm "
